@@ -283,6 +283,8 @@ func valJSON(v CVal) interface{} {
 	switch v.T {
 	case "int":
 		return v.V
+	case "null":
+		return nil
 	case "obj":
 		if v.V == 0 {
 			return map[string]interface{}{}
@@ -480,6 +482,8 @@ func (e *composerEnv) project(doc document.Document, nOther int) (CDoc, []string
 		cv := CVal{T: "bad"}
 
 		switch t := v.(type) {
+		case nil:
+			cv = CVal{T: "null"}
 		case float64:
 			cv = CVal{T: "int", V: int(t)}
 		case map[string]interface{}:
